@@ -315,6 +315,17 @@ def evaluate(case, scratch):
                 m2, c2 = apply_model(mdl, cl, op)
                 n_trans += 1
                 nxt.append((path + (op,), t2, m2, c2))
+                # the operation must leave the tree it was applied to as it
+                # was (it is used again by the sibling branches)
+                if canon(tree) != c:
+                    viol('operation-mutates-source',
+                         [f'path={path}: after {op} the source tree changed'
+                          f':\n{c}\n{canon(tree)}'])
+                    bad2 = compare_state(tree, mdl, path + ('after', op),
+                                         cells=cl)
+                    if bad2:
+                        viol('operation-mutates-source', bad2)
+                    break
             # operations the model says are not enabled must be refused
             if len(mdl['hierarchy']) == 1:
                 for op in ('drop_leaf', ('drop', mdl['hierarchy'][0])):
@@ -395,7 +406,14 @@ def evaluate(case, scratch):
 
     # ---- every single-edit malformed variant must be rejected
     n_mut = 0
-    for mkey, mdata in malformed_variants(data, model):
+    # the same variants on the tree without cell lists (what the output
+    # metadata and the marker files carry)
+    nocells = copy.deepcopy(data)
+    for leaf in nocells[model['hierarchy'][-1]]:
+        nocells[model['hierarchy'][-1]][leaf] = []
+    variants = list(malformed_variants(data, model)) + [
+        (k + '/nocells', v) for k, v in malformed_variants(nocells, model)]
+    for mkey, mdata in variants:
         n_mut += 1
         try:
             TaxonomyTree(data=mdata)
